@@ -80,7 +80,8 @@ func c02World(t *rapid.T) (map[string]string, map[string]string, []string) {
 	// escaping of values that contain every special character (per-call scratch state in a filter
 	// would be shared between goroutines)
 	mem["mesc"] = "{% for i in [1,2,3] %}{{ s|e }}{{ (s ~ i)|escape }}{% endfor %}{{ s|e|e }}"
-	names = append(names, "mchild", "minc", "mmac", "mbig", "mesc")
+	mem["mobj"] = "{{ o.Name }}/{{ o.N }}/{{ o.Label }}/{{ o.Double }}/{% for it in o.Items %}{{ it }}{% endfor %}/{{ o.Nope }}"
+	names = append(names, "mchild", "minc", "mmac", "mbig", "mesc", "mobj")
 	return fs, mem, names
 }
 
@@ -105,6 +106,15 @@ func copyMap(m map[string]string) map[string]string {
 	return out
 }
 
+type c02Obj struct {
+	Name string
+	N    int
+}
+
+func (o c02Obj) Label() string   { return "L" + o.Name }
+func (o *c02Obj) Double() int    { return 2 * o.N }
+func (o c02Obj) Items() []string { return []string{o.Name, "x"} }
+
 // c02Nonce numbers the runs of this process: the text NONCE inside generated identifiers is
 // replaced by a fresh number in every run, so that the names are new to the process each time
 // (the serial reference run would otherwise already have entered them into global tables).
@@ -113,7 +123,13 @@ var c02Nonce int64
 
 func c02Do(e *twig.Engine, call C02Call, nonce string) Res {
 	call.Src = strings.ReplaceAll(call.Src, "NONCE", nonce)
-	ctx := map[string]interface{}{"v": call.V, "s": fmt.Sprintf("<%d&\"'>%s", call.V, strings.Repeat("<&>", call.V))}
+	// o: a Go struct with fields and methods (value in even calls, pointer in odd ones), so that
+	// attribute lookups on structs happen concurrently
+	var o interface{} = c02Obj{Name: fmt.Sprintf("n%d", call.V), N: call.V}
+	if call.V%2 == 1 {
+		o = &c02Obj{Name: fmt.Sprintf("n%d", call.V), N: call.V}
+	}
+	ctx := map[string]interface{}{"o": o, "v": call.V, "s": fmt.Sprintf("<%d&\"'>%s", call.V, strings.Repeat("<&>", call.V))}
 	switch call.Op {
 	case "renderTo":
 		switch call.W {
@@ -340,7 +356,7 @@ func genC02(t *rapid.T) C02Case {
 	return c
 }
 
-const c02Rule = "workloads on one shared engine with a temp-dir FileSystemLoader (2-3 directories whose templates extend ../shared/base and include/import ./part, ./macros, ./leaf — the same relative names resolving to different files per directory) and an ArrayLoader (inheritance with parent(), include-with, macros, a template above 4096 bytes, escaping of strings full of special characters); parsed and registered sources (below and above 4096 bytes) print identifiers the process has never seen; cache on / off / auto-reload; 2-16 goroutines with 3-12 (thorough 40) calls each out of Render, RenderTo (into a bytes.Buffer, a slow Write-only writer, an io.Pipe), Load+Render, ParseTemplate+Render, RegisterString+Render of goroutine-private names; GOMAXPROCS 2/4/16/default and optional yields; each workload repeated 3 (thorough 10) times on fresh engines, so first loads are concurrent and uncached; built with -race. non-trivial = at least two calls overlapped in time on the shared engine (measured); distinct by workload"
+const c02Rule = "workloads on one shared engine with a temp-dir FileSystemLoader (2-3 directories whose templates extend ../shared/base and include/import ./part, ./macros, ./leaf — the same relative names resolving to different files per directory) and an ArrayLoader (inheritance with parent(), include-with, macros, a template above 4096 bytes, escaping of strings full of special characters, attribute and method lookups on a Go struct passed by value and by pointer); parsed and registered sources (below and above 4096 bytes) print identifiers the process has never seen; cache on / off / auto-reload; 2-16 goroutines with 3-12 (thorough 40) calls each out of Render, RenderTo (into a bytes.Buffer, a slow Write-only writer, an io.Pipe), Load+Render, ParseTemplate+Render, RegisterString+Render of goroutine-private names; GOMAXPROCS 2/4/16/default and optional yields; each workload repeated 3 (thorough 10) times on fresh engines, so first loads are concurrent and uncached; built with -race. non-trivial = at least two calls overlapped in time on the shared engine (measured); distinct by workload"
 
 func TestC02Concurrent(t *testing.T) {
 	r := NewRec(t, "C02", c02Rule)
